@@ -85,6 +85,43 @@ theorem core_g_noflag_py (hd : C07.DInv p.dom) (hc : p.cost inv x = .ok q)
   have hr : ((l : ℝ) + 1) * p.dom.dr ≠ 0 := by positivity
   rw [h3, mul_div_cancel_left₀ _ hr, h2, hcv]; ring
 
+/-- HNC without the flag: the stored `g` differs from `y / r` by exactly `e^{γ_in − u}` (which underflows to 0 for the
+shipped wall heights) -/
+theorem core_g_noflag_hnc (hd : C07.DInv p.dom) (hc : p.cost inv x = .ok q)
+    {l i j : ℕ} (hl : l < p.dom.length) (hij : i ≤ j) (hj : j < p.n)
+    (hk : p.cloK i j = (.hnc, false)) (hdr : 0 < p.dom.dr) :
+    C01.hReal q l i j + 1 = q.y[(l * p.n + i) * p.n + j]! / (((l : ℝ) + 1) * p.dom.dr)
+      + Real.exp (q.gammaIn.at l i j - (p.u i j)[l]!) := by
+  have hi : i < p.n := lt_of_le_of_lt hij hj
+  obtain ⟨h1, h2, h3⟩ := C01.closure_relation_of_cost hd hc hl hi hj
+  rw [loI_of_le hij, hiI_of_le hij] at h1
+  have hcv : C01.cReal q l i j = Real.exp (q.gammaIn.at l i j - (p.u i j)[l]!) - q.gammaIn.at l i j - 1 := by
+    rw [h1]; unfold C01.phi
+    rw [loI_of_le hij, hiI_of_le hij, hk]
+    have := hnc_noflag_core (p.cloSigma i j) (((l : ℝ) + 1) * p.dom.dr) (q.gammaIn.at l i j) ((p.u i j)[l]!)
+    linarith
+  have hr : ((l : ℝ) + 1) * p.dom.dr ≠ 0 := by positivity
+  rw [h3, mul_div_cancel_left₀ _ hr, h2, hcv]; ring
+
+/-- **the mirrored entries too**: for ANY ordered pair `(i, j)` — also `j < i`, the lower triangle that the closure loop never
+visits — the stored `g` inside the flagged core of the unordered pair `{i, j}` is the residual at `(i, j)` over `r`; the
+trial γ read is the one of the upper-triangle entry. -/
+theorem core_g_eq_residual_any (hd : C07.DInv p.dom) (hc : p.cost inv x = .ok q)
+    {l i j : ℕ} (hl : l < p.dom.length) (hi : i < p.n) (hj : j < p.n)
+    (hflag : (p.cloK (loI i j) (hiI i j)).2 = true)
+    (hcore : ((l : ℝ) + 1) * p.dom.dr ≤ p.cloSigma (loI i j) (hiI i j)) (hdr : 0 < p.dom.dr) :
+    C01.cReal q l i j + q.gammaIn.at l (loI i j) (hiI i j) = -1 ∧
+    C01.hReal q l i j + 1 = q.y[(l * p.n + i) * p.n + j]! / (((l : ℝ) + 1) * p.dom.dr)
+      + (q.gammaIn.at l i j - q.gammaIn.at l (loI i j) (hiI i j)) := by
+  obtain ⟨h1, h2, h3⟩ := C01.closure_relation_of_cost hd hc hl hi hj
+  have hcv : C01.cReal q l i j = -1 - q.gammaIn.at l (loI i j) (hiI i j) := by
+    rw [h1]; unfold C01.phi
+    rw [hflag]
+    exact C09.core_branch _ _ _ _ _ hcore
+  have hr : ((l : ℝ) + 1) * p.dom.dr ≠ 0 := by positivity
+  refine ⟨by rw [hcv]; ring, ?_⟩
+  rw [h3, mul_div_cancel_left₀ _ hr, h2, hcv]; ring
+
 /-- non-vacuity: a flagged core point exists on a concrete grid (`dr = 0.1`, `σ = 1`, `l = 4`) -/
 example : ((4 : ℕ) + 1 : ℝ) * (1/10) ≤ 1 := by norm_num
 
